@@ -179,6 +179,14 @@ def run_one(ctl: explorer.Ctl, cfg: Dict[str, Any]) -> Dict[str, Any]:
 
             import asyncio as _asyncio
             st["consumer"] = _asyncio.ensure_future(slow_consumer())
+        if cfg.get("write") == "peer-closes":
+            # the peer takes the initialize request, answers, and is gone: its end of the client's write stream is closed
+            async def one_then_gone():
+                await recv_w.receive()
+                await recv_w.aclose()
+
+            import asyncio as _asyncio2
+            st["consumer"] = _asyncio2.ensure_future(one_then_gone())
         kw = {"timeout": T, "supported_versions": list(sup), "preferred_version": pref}
         try:
             if client is not None and cfg.get("reenter"):
@@ -251,7 +259,15 @@ def run_one(ctl: explorer.Ctl, cfg: Dict[str, Any]) -> Dict[str, Any]:
     if a["kind"] == "version-fragment":
         a = dict(a, v=fragment(a["frag"], sup))
     success_expected = a["kind"] in ("version", "version-extras", "version-fragment") and a["v"] in sup
-    if success_expected:
+    if success_expected and cfg.get("write") == "peer-closes":
+        # the answer is acceptable but the initialized notification cannot be delivered any more: the handshake cannot
+        # have completed, so the call must not report success (how it fails is not specified)
+        if okind == "ok":
+            bad("success-without-initialized", "initialization reported success although the initialized notification could not "
+                                               "be written (peer gone)", write="peer-closes")
+        if client is not None and (st.get("info") or client.get_batching_info()).get("protocol_version") != cfg.get("preset"):
+            bad("tracked-client-set-on-failure", f"{st.get('info') or client.get_batching_info()}", write="peer-closes")
+    elif success_expected:
         if okind != "ok":
             bad("valid-answer-rejected", "server answered with an offered version but initialization failed")
         else:
@@ -525,6 +541,156 @@ def run_concurrent(ctl: explorer.Ctl, cfg: Dict[str, Any]) -> Dict[str, Any]:
     return {"outcome": "/".join(c.get("outcome", ("none",))[0] for c in conns), "violations": viol}
 
 
+# ---------------------------------------------------------------------------
+# the library's default list: what a caller does to a list it was handed must not change later handshakes
+# ---------------------------------------------------------------------------
+RUN_DEF = "vf.checks.c03:run_defaults"
+LIST_MUTATIONS = ["insert-front", "append", "clear", "reverse", "replace-first", "pop-first"]
+
+
+def _list_getters():
+    """Public callables without required arguments that return a list of version strings (discovered)."""
+    import inspect
+
+    from chuk_mcp.protocol.messages.initialize import send_messages as sm
+    from chuk_mcp.protocol.types import versioning as vs
+
+    found = {}
+    for mod in (sm, vs):
+        for n, o in vars(mod).items():
+            if n.startswith("_"):
+                continue
+            cands = []
+            if inspect.isfunction(o):
+                cands.append((f"{mod.__name__.split('.')[-1]}.{n}", o))
+            elif inspect.isclass(o) and o.__module__.startswith("chuk_mcp"):
+                for n2, o2 in vars(o).items():
+                    if not n2.startswith("_") and isinstance(o2, (staticmethod, classmethod)):
+                        cands.append((f"{o.__name__}.{n2}", getattr(o, n2)))
+            for name, f in cands:
+                try:
+                    sig = inspect.signature(f)
+                    if any(p.default is inspect.Parameter.empty and p.kind in (p.POSITIONAL_ONLY, p.POSITIONAL_OR_KEYWORD)
+                           for p in sig.parameters.values()):
+                        continue
+                    r = f()
+                except Exception:  # noqa: BLE001
+                    continue
+                if isinstance(r, list) and r and all(isinstance(x, str) for x in r):
+                    found.setdefault(name.split(".")[-1] + "@" + name.split(".")[0], f)
+    return dict(sorted(found.items()))
+
+
+def run_defaults(ctl: explorer.Ctl, cfg: Dict[str, Any]) -> Dict[str, Any]:
+    from chuk_mcp.protocol.messages.initialize.send_messages import send_initialize
+    from chuk_mcp.protocol.messages.json_rpc_message import parse_message
+    from chuk_mcp.protocol.types import versioning as vs
+    from chuk_mcp.protocol.types.errors import NonRetryableError, RetryableError, VersionMismatchError
+
+    getters = _list_getters()
+    snapshot = list(vs.SUPPORTED_VERSIONS)
+    shared_lists = [v for v in vars(vs).values() if isinstance(v, list)]
+    loop = new_loop(horizon=4 * T + 5)
+    writes: List[tuple] = []
+    st: Dict[str, Any] = {"answered": False}
+    viol: List[dict] = []
+    try:
+        # what the caller does before the handshake
+        for name in cfg["getters"]:
+            lst = getters[name]()
+            m = cfg["mutation"]
+            if m == "insert-front":
+                lst.insert(0, "2099-01-01")
+            elif m == "append":
+                lst.append("2099-01-01")
+            elif m == "clear":
+                lst.clear()
+            elif m == "reverse":
+                lst.reverse()
+            elif m == "replace-first":
+                lst[0] = "2099-01-01"
+            elif m == "pop-first":
+                lst.pop(0)
+
+        def idle(lp):
+            if st["answered"] or not writes:
+                return
+            st["answered"] = True
+            req = writes[0][1]
+            proposed = (getattr(req, "params", None) or {}).get("protocolVersion")
+            v = proposed if cfg["answer"] == "echo" else cfg["answer"]
+            st["send_r"].send_nowait(parse_message({"jsonrpc": "2.0", "id": getattr(req, "id", None),
+                                                    "result": {"protocolVersion": v, **CAPS}}))
+
+        async def main():
+            send_w, recv_w = anyio.create_memory_object_stream(math.inf)
+            send_r, recv_r = anyio.create_memory_object_stream(math.inf)
+            st["send_r"] = send_r
+            w = RecordingSend(send_w, writes, loop)
+            try:
+                r = await send_initialize(recv_r, w, timeout=T)
+                return ("ok", getattr(r, "protocolVersion", None))
+            except VersionMismatchError:
+                return ("version-mismatch", None)
+            except TimeoutError:
+                return ("timeout", None)
+            except (RetryableError, NonRetryableError) as e:
+                return ("rpc-error", getattr(e, "code", None))
+            except BaseException as e:  # noqa: BLE001
+                return ("exception", type(e).__name__)
+
+        loop.idle_hook = idle
+        status, val = loop.run_main(main())
+        errors = loop.collect_errors()
+        loop.abandon()
+        changed = list(vs.SUPPORTED_VERSIONS) != snapshot
+    finally:
+        # whatever happened, later executions in this process start from the library's own list again
+        for lst in shared_lists:
+            pass
+        if list(vs.SUPPORTED_VERSIONS) != snapshot:
+            vs.SUPPORTED_VERSIONS[:] = snapshot
+    if status != "ok":
+        return {"outcome": status, "violations": [{"sig": {"class": "did-not-finish", "part": "defaults"}, "msg": f"cfg={cfg}: {status} {core.clean_repr(val)}"}]}
+    okind, oval = val
+    wd = [m.model_dump(exclude_none=True) for _, m in writes]
+    inits = [w_ for w_ in wd if w_.get("method") == "initialize"]
+    notes = [w_ for w_ in wd if w_.get("method") == "notifications/initialized"]
+    proposed = (inits[0].get("params") or {}).get("protocolVersion") if inits else None
+
+    def bad(cls, msg):
+        viol.append({"sig": {"class": cls, "part": "defaults", "mutation": cfg["mutation"]},
+                     "msg": f"cfg={cfg}: {msg} [outcome={okind} {oval!r}; proposed {proposed!r}; library list {snapshot}]"})
+
+    if changed:
+        bad("library-default-list-changed-by-caller", "the library's own supported-version list changed after the caller modified a list it was handed")
+    if proposed != snapshot[0]:
+        bad("wrong-proposal", f"a handshake with default arguments proposed {proposed!r}, the library's first supported version is {snapshot[0]!r}")
+    answered = proposed if cfg["answer"] == "echo" else cfg["answer"]
+    if answered in snapshot:
+        if okind != "ok" or oval != answered or len(notes) != 1:
+            bad("valid-answer-rejected", f"answer {answered!r} is in the default list")
+    else:
+        if okind == "ok":
+            bad("accepted-unoffered-version", f"answer {answered!r} is not in the library's default list")
+        if notes:
+            bad("initialized-sent-on-failure", f"{len(notes)} initialized notifications")
+    if errors:
+        bad("loop-error", f"{errors[:2]}")
+    return {"outcome": okind, "violations": viol}
+
+
+def defaults_configs():
+    names = list(_list_getters())
+    out = []
+    subsets = [[n] for n in names] + ([names] if len(names) > 1 else []) + [[]]
+    for g in subsets:
+        for m in (LIST_MUTATIONS if g else ["insert-front"]):
+            for a in ("echo", "2099-01-01", "2025-03-26"):
+                out.append({"getters": g, "mutation": m, "answer": a})
+    return out, names
+
+
 def run(tier: str, only=None) -> core.Result:
     res = core.Result("C03", "model_checking")
     ls = lists(2 if tier == "quick" else 3)
@@ -544,6 +710,12 @@ def run(tier: str, only=None) -> core.Result:
                         for re in (None, "preset-then-connect", "second-connection"):
                             cfgs.append({"list": sup, "pref": pref, "answer": ai, "when": "now", "distractor": False,
                                          "tracked": True, "preset": preset, "reenter": re})
+                # the peer disappears right after answering
+                if len(sup) <= 2 and ANSWERS[ai]["kind"] in ("version", "version-fragment", "version-extras"):
+                    for tr in (False, True):
+                        for when in ("now", "poll-tie-after"):
+                            cfgs.append({"list": sup, "pref": pref, "answer": ai, "when": when, "distractor": False,
+                                         "tracked": tr, "write": "peer-closes"})
                 # slow peer: unbuffered write stream whose consumer stalls after taking the request
                 if len(sup) == 1 and ANSWERS[ai]["kind"] in ("version", "version-fragment"):
                     for stall in (0.5 * T, 2.5 * T):
@@ -568,6 +740,12 @@ def run(tier: str, only=None) -> core.Result:
                         cc.append({"lists": [l0, l1], "answers": [a0, a1], "start": start})
     out = explorer.explore(RUN_CC, cc, fidelity=True)
     sched.absorb(res, "two-overlapping-handshakes", RUN_CC, out, cc)
+    dc, gnames = defaults_configs()
+    if len(gnames) < 1:
+        res.harness_errors.append("[defaults] no public getter returning the supported-version list was discovered")
+    out = explorer.explore(RUN_DEF, dc, fidelity=True)
+    sched.absorb(res, "default-list-after-the-caller-modified-what-it-was-handed", RUN_DEF, out, dc)
+    res.coverage["list_getters_discovered"] = gnames
     res.coverage["exhaustive"] = True
     res.coverage["rule"] = (
         f"all {len(ls)} non-empty repetition-free ordered supported lists of length <= {2 if tier == 'quick' else 3} over "
